@@ -226,7 +226,7 @@ class Study:
             A list of :class:`~optuna.study.StudyDirection` objects.
         """
 
-        return self._directions
+        return list(self._directions)
 
     @property
     def trials(self) -> list[FrozenTrial]:
